@@ -113,6 +113,10 @@ class Generator(Curve, Point):
             If something goes wrong, this list will be empty.
         """
         r, s = signature
+        order = self._order
+        if r < 1 or r >= order or s < 1 or s >= order or r >= self._p:  # type: ignore[operator]
+            # no public key verifies such a signature (see verify)
+            return []
 
         try:
             points = self.points_for_x(r)
